@@ -610,6 +610,39 @@ def sequence_set_to_list(
 
 ####################################################################
 #
+def clip_uid_set(seq_set: MsgSet, uid_max: int) -> MsgSet:
+    """Clip the ranges of a UID sequence set to the highest uid in use.
+
+    No message has a uid above `uid_max`, so the part of a range that lies
+    above it can never select anything. Clipping it keeps a set such as
+    `1:4294967295` from being expanded into billions of numbers by
+    :func:`sequence_set_to_list`. `"*"` is resolved to `uid_max` first so
+    that `n:*` still includes the last message.
+
+    Args:
+        seq_set: The parsed UID sequence set.
+        uid_max: The highest uid in the mailbox.
+
+    Returns:
+        The sequence set with every range clipped to `uid_max`. Ranges that
+        lie entirely above `uid_max` are dropped.
+    """
+    result: list = []
+    for elt in seq_set:
+        if isinstance(elt, tuple):
+            start, end = (uid_max if x == "*" else x for x in elt)
+            assert isinstance(start, int) and isinstance(end, int)
+            if start > end:
+                start, end = end, start
+            if start > uid_max:
+                continue
+            elt = (start, min(end, uid_max))
+        result.append(elt)
+    return result
+
+
+####################################################################
+#
 def get_uidvv_uid(hdr: str) -> tuple:
     """Parse the uid_vv and uid integers from an `X-asimapd-uid` header value.
 
